@@ -1463,7 +1463,7 @@ def write_if_changed(path, text):
     return True
 
 
-PLUGINS = ["translate_layout", "translate_nonlin", "translate_metrics", "translate_wiring", "translate_spectral2", "translate_guards", "translate_ic2"]   # modules exposing TARGETS (same convention)
+PLUGINS = ["translate_layout", "translate_nonlin", "translate_metrics", "translate_wiring", "translate_spectral2", "translate_guards", "translate_ic2", "translate_base"]   # modules exposing TARGETS (same convention)
 
 
 def all_targets():
